@@ -281,7 +281,7 @@ Section Bounds.
     /\ bounded se (dissat_data (ext_multi k uncs)) (fst (sd_multi se k ks)).
   Proof.
     unfold sd_multi, ext_multi.
-    assert (Hd : bounded se (Some (mkSD (1 + k) (k + 1) (1 + k) (N.of_nat (length uncs)) (N.of_nat (length uncs))))
+    assert (Hd : bounded se (Some (mkSD (1 + k) (k + 1) (1 + k) (N.of_nat (length uncs) + 2) (N.of_nat (length uncs))))
                          (mkSat (WStack (repeat PhPushZero (S (N.to_nat k)))) false None None)).
     { unfold bounded. cbn [s_stack]. eexists; split; [reflexivity|].
       destruct (repeat_zero_meas (S (N.to_nat k))) as (A & B & C).
@@ -430,6 +430,12 @@ Section Bounds.
     split; [exact A|]. split; [apply dbounded_tracked; assumption|exact Ht].
   Qed.
 
+  Lemma bounded_raise_estack ub od s : bounded se od s -> bounded se (option_map (sd_raise_estack ub) od) s.
+  Proof.
+    unfold bounded. destruct (s_stack s); auto. intros (d & -> & W). eexists. split; [reflexivity|].
+    eapply within_mono; [exact W| cbn; lia ..].
+  Qed.
+
   Lemma thresh_case k xs : Forall Pm xs -> Pm (MThresh k xs).
   Proof.
     intros HF Hsafe. rewrite ext_safe_thresh in Hsafe.
@@ -442,10 +448,10 @@ Section Bounds.
     assert (Hlds : length ds = length xs) by (unfold ds; apply map_length).
     unfold ext_threshold. cbn [sat_data dissat_data].
     change (map (fun s => (sat_data s, dissat_data s)) es) with (map pair_of es).
-    split; [|apply bounded_dbounded, thresh_dissat_bounded, HC].
+    split; [|apply bounded_dbounded, bounded_raise_estack, thresh_dissat_bounded, HC].
     destruct (N.eqb_spec k (N.of_nat (length xs))) as [Ek|Ek].
     - (* k = n: every child satisfied *)
-      rewrite (picks_all_true ds). apply thresh_picks_bounded; [exact HC|apply repeat_length|].
+      rewrite (picks_all_true ds). apply bounded_raise_estack, thresh_picks_bounded; [exact HC|apply repeat_length|].
       replace (length ds) with (length (map pair_of es)) by (rewrite map_length; lia).
       rewrite nflags_combine_repeat, map_length, Hles. unfold quota. destruct (fx_thresh fx); lia.
     - (* k < n: needs the repaired rule *)
@@ -462,13 +468,13 @@ Section Bounds.
         rewrite nflags_combine_map by (rewrite map_length, seq_length; lia).
         rewrite (chosen_count le f (length ds) (N.to_nat k) Hk'). unfold quota. lia. }
       destruct mall.
-      + unfold thresh_mall. rewrite map_length. apply Hgen.
+      + unfold thresh_mall. rewrite map_length. apply bounded_raise_estack, Hgen.
       + unfold thresh_nonmall. rewrite map_length.
         match goal with |- context [if ?b then IMPOSSIBLE else _] => destruct b end;
           [apply bounded_impossible; reflexivity|].
         match goal with |- context [if ?b then UNAVAILABLE else _] => destruct b end;
           [apply bounded_unavailable; reflexivity|].
-        apply Hgen.
+        apply bounded_raise_estack, Hgen.
   Qed.
 
   Ltac split_safe H :=
@@ -607,15 +613,9 @@ Proof.
   unfold bounded in A. rewrite El in A. destruct A as (d & Ed & Wc & Ws & Wg). eauto.
 Qed.
 
-(* the repaired rules: no side condition on the rules, only the structural part of ext_safe *)
-Corollary wit_bounds_fixed :
-  forall c ke se mall rhs m,
-    senv_ok c se -> ksort_len_ok ke -> ext_safe all_fixed c m = true ->
-    bounded se (sat_data (ext_of_fixed c m)) (snd (sat_dissat ke se mall rhs m)).
-Proof. intros c ke se mall rhs m Hse Hk Hs. exact (proj1 (wit_bounds_gen all_fixed c ke se mall rhs m Hse Hk Hs)). Qed.
-
-(* the code as written, on the scripts that avoid the four defects *)
-Corollary wit_bounds_code_partial :
+(* the code as written (all four size-relevant repairs are in /repo): only the structural part of
+   ext_safe remains as side condition *)
+Corollary wit_bounds_code :
   forall c ke se mall rhs m,
     senv_ok c se -> ksort_len_ok ke -> ext_safe as_written c m = true ->
     bounded se (sat_data (ext_of c m)) (snd (sat_dissat ke se mall rhs m)).
@@ -625,8 +625,8 @@ Proof. intros c ke se mall rhs m Hse Hk Hs. exact (proj1 (wit_bounds_gen as_writ
 Example wit_bounds_nonvacuous :
   senv_ok cx_segwit se_key3 /\ ksort_len_ok ke0
   /\ ext_safe as_written cx_segwit (MOrD (MCheck (MPkK 3)) (MAndV (MVerify (MCheck (MPkK 1))) (MOlder 10))) = true
-  /\ ext_safe all_fixed cx_segwit w_thresh = true
-  /\ ext_safe as_written cx_segwit w_thresh = false
+  /\ ext_safe as_written cx_segwit w_thresh = true
+  /\ ext_safe pre_fix cx_segwit w_thresh = false
   /\ s_stack (snd (sat_dissat ke0 se_key3 false true (MOrD (MCheck (MPkK 3)) (MAndV (MVerify (MCheck (MPkK 1))) (MOlder 10)))))
      = WStack [PhSig 3].
 Proof.
